@@ -264,8 +264,8 @@ func checkC09() fw.Check {
 			wins := []window{{1, 6}, {250, 255}}
 			perProbe, chunks := 800, 3
 			if tier == "thorough" {
-				wins = []window{{1, 6}, {250, 255}, {3, 12}, {1, 3}}
-				perProbe, chunks = 2500, 80
+				wins = append([]window{{1, 6}, {250, 255}, {3, 12}, {1, 3}}, thoroughWindows(seed, 4)[len(windowsThorough):]...)
+				perProbe, chunks = 2500, 160
 			}
 			var cases []fw.Case
 			for _, v := range refmatch.Variants {
